@@ -206,6 +206,11 @@ def run(ctx: RuleContext, p: Program) -> None:
     ctx.try_rule(grammar_rules.rule_inline_eol, p, 'INLINE-EOL')
     ctx.try_rule(grammar_rules.rule_lex_prio, p, 'LEX-PRIO')
     ctx.try_rule(grammar_rules.rule_term_domain, p, 'TERM-DOMAIN')
+    from . import opsem
+    # NumberExpr.from_value and the hand-written from_children of the chain classes build trees that have a store, span it and read as their text
+    ctx.try_rule(opsem.rule_op_sem, p, 'OP-SEM')
+    # the meta value constructor path (MetaItem.from_value, meta[key] = v): every plain value, instances of subclasses included, is wrapped
+    ctx.try_rule(round4.rule_meta_sem, p, 'META-SEM')
     ctx.not_decided += ['that the printed text of a constructed model parses (runtime / lexer)',
                         'that the parsed result has equal fields and values (runtime)']
     ctx.assumptions += ['detach()/reattach() semantics as decided under C05', 'separator tokens are deep-copied (SEP-PROV under C03/C11)']
